@@ -70,6 +70,7 @@ fn eval(op: &str, args: &[&str]) -> Option<Vec<String>> {
         "mboxparse" => c17::mboxparse(args),
         "date" => c17::date(args),
         "dparse" => c17::dparse(args),
+        "mboxctor" => c17::mboxctor(args),
         "typed" => c17::typed(args),
         "build" => c17::build(args),
         "hdrs" => c02::hdrs(args),
